@@ -128,7 +128,7 @@ type Fault struct {
 	Kind   string `json:"kind"` // "" = any
 	Nth    int    `json:"nth"`
 	Caller string `json:"caller"`
-	Action string `json:"action"` // "err:<errno>" | "drop" (connection closed before apply) | "applydrop" | "hang" | "delay:<ms>"
+	Action string `json:"action"` // "err:<errno>" | "drop" (connection closed before apply) | "applydrop" | "hang" | "delay:<ms>" | "unchannel"
 	seen   int
 	used   bool
 }
@@ -675,6 +675,11 @@ func (w *World) query(n *Node, sess *session, caller, raw string) result {
 			w.Mu.Unlock()
 			time.Sleep(time.Duration(ms) * time.Millisecond)
 			w.Mu.Lock()
+		case f.Action == "unchannel":
+			// somebody else (an operator, another tool) ran STOP REPLICA; RESET REPLICA ALL on this server just before
+			// this statement arrived: the statement itself is then executed normally on a server without a channel
+			n.Chan = nil
+			n.Retrieved = ""
 		case f.Action == "applydrop":
 			if w.OnStatement != nil {
 				w.OnStatement(w, n, caller, kind, arg)
